@@ -2,6 +2,7 @@
   Line-protocol driver, part 3: lax groups (`lax.edit`, `lax.cat`, `lax.functor`, `lax.optic`,
   `lax.var`) and the strict functor/optic groups.  IMPORT-FREE.
 -/
+import OHVerif.Model.Json
 import OHVerif.Model.DriverStrict
 import OHVerif.Model.Functor
 
@@ -320,14 +321,8 @@ def laxCat (B : Backend) (op : String) (args : List Sx) (impl : Sx) : Option Out
     pure (exact f.target impl)
   | "lax.json", [f] => do
     let f : LF ← dec f
-    -- the documented JSON form (README): field names, NodeId as a plain number, keys sorted
-    let arr := fun (xs : L) => "[" ++ ",".intercalate (xs.map toString) ++ "]"
-    let adj := "[" ++ ",".intercalate (f.hypergraph.adjacency.map fun e =>
-      "{\"sources\":" ++ arr e.sources ++ ",\"targets\":" ++ arr e.targets ++ "}") ++ "]"
-    let h := "{\"adjacency\":" ++ adj ++ ",\"edges\":" ++ arr f.hypergraph.edges ++
-      ",\"nodes\":" ++ arr f.hypergraph.nodes ++
-      ",\"quotient\":[" ++ arr f.hypergraph.quotient.1 ++ "," ++ arr f.hypergraph.quotient.2 ++ "]}"
-    let text := "{\"hypergraph\":" ++ h ++ ",\"sources\":" ++ arr f.sources ++ ",\"targets\":" ++ arr f.targets ++ "}"
+    -- the documented JSON form (README): `Json.render`, proved lossless in Props/C11Json.lean
+    let text := String.ofList (Json.render f)
     let m := okSx (.l [.s text, .s "true"])
     pure { model := m, agree := m == impl, rel := "exact" }
   | "lax.to_hypergraph", [h] => do
